@@ -8,6 +8,7 @@ word by word on an exact-arithmetic frame clock (the model), and the real SCCRea
 import itertools
 from fractions import Fraction
 
+from mc import shared
 from mc.acc import Acc, h8
 from mc.ref import cea608 as C
 
@@ -157,7 +158,7 @@ def evaluate(case):
     doc = doc_of(lines, sep)
     v = []
     try:
-        cs = SCCReader().read(doc, offset=offset)
+        cs = shared.obj(SCCReader).read(doc, offset=offset)
         got = [(c.start, c.end) for c in cs.get_captions("en-US")]
         raised = None
     except CaptionReadTimingError as e:
@@ -199,8 +200,26 @@ def offsets_for(base):
     return sorted({0, 1, max(0, t0 - 1), t0 + 2})
 
 
+def reuse_items():
+    items = []
+    i = 0
+    for bi, base in enumerate(BASES):
+        for sep in (":", ";"):
+            for b1 in BOUNDARY[::3]:
+                for final in FINAL:
+                    offs = offsets_for(base)
+                    items.append((base, sep, bool(i % 2), (i % 3, (i // 3) % 5, 12 - i % 13), b1, BOUNDARY[(i * 7) % len(BOUNDARY)], final, offs[i % len(offs)], bool(i % 4 == 0)))
+                    i += 1
+    return items
+
+
+def reuse_eval(item):
+    v, _s, _t, outcome = evaluate(item)
+    return (v or []), outcome
+
+
 def shards(tier, seed):
-    sh = []
+    sh = [{"reuse": True}]
     for bi in range(len(BASES)):
         for sep in (":", ";"):
             for doubled in (False, True):
@@ -210,6 +229,11 @@ def shards(tier, seed):
 
 def run_shard(d):
     acc = Acc()
+    if d.get("reuse"):
+        shared.run(acc, reuse_items(), reuse_eval, sample=lambda it: {"reuse_run_step": list(it)})
+        res = acc.result()
+        res["extra"] = {"state_hashes": []}
+        return res
     base = BASES[d["base"]]
     allstates = set()
     fill_sets = [(0, 0, 0), (1, 5, 12), (12, 0, 1), (5, 1, 0)] if d["tier"] == "quick" else list(itertools.product(FILLERS, repeat=3))[::3]
@@ -244,6 +268,8 @@ def finish(agg, tier, seed):
 
 
 def replay(case):
+    if case.get("reuse"):
+        return shared.replay(reuse_items(), reuse_eval, case["index"])
     c = case["case"]
     tw = bool(c[8]) if len(c) > 8 else False
     c = (tuple(c[0]), c[1], c[2], tuple(c[3]), c[4], c[5], c[6], c[7], tw)
